@@ -372,6 +372,13 @@ fn stub_udp_ck(_data: &[u8], _src: Ipv4Addr, _dst: Ipv4Addr) -> u16 {
     kani::any()
 }
 
+/// Cut for the UDP receive-path harness: `calc_udp_checksum` rebuilds a datagram of attacker-chosen
+/// (symbolic) payload size, which exhausts 45 GB inside the whole receive path; it is decided on its
+/// own for every size 0..=65535 by `c04_v4_calc_udp_checksum_any_size`, and its value by `c19_v4_*`.
+fn stub_calc_udp_checksum(_this: &Ipv4, _src: Port, _dst: Port, _size: u16) -> Result<u16> {
+    Ok(kani::any())
+}
+
 fn arm_read() -> usize {
     let bytes: [u8; sockstate::RBUF] = kani::any();
     let len: usize = kani::any();
@@ -433,7 +440,7 @@ fn c04_v4_recv_tcp() {
 #[kani::proof]
 #[kani::unwind(100)]
 #[kani::stub(std::time::SystemTime::now, clock::now_stub)]
-#[kani::stub(trippy_packet::checksum::udp_ipv4_checksum, stub_udp_ck)]
+#[kani::stub(crate::net::ipv4::Ipv4::calc_udp_checksum, stub_calc_udp_checksum)]
 fn c04_v4_recv_udp() {
     recv_no_panic(Protocol::Udp, false);
 }
